@@ -337,20 +337,31 @@ fn escape_one_char(c: char) -> String {
     '\r' => "\\r".to_owned(),
     '\t' => "\\t".to_owned(),
     '"' => "\\\"".to_owned(),
-    '\'' => "'".to_owned(),
+    '\'' => "\\'".to_owned(),
     '*' => "\\x2a".to_owned(),
     '?' => "\\x3f".to_owned(),
+    // A word that is exactly ";" would separate two commands
+    ';' => "\\x3b".to_owned(),
+    // "%" introduces a specifier and "$" a variable; doubled they are literal
+    '%' => "%%".to_owned(),
+    '$' => "$$".to_owned(),
     _ => {
-      if c.is_control() {
-        let i = c as u64;
+      let i = c as u64;
+      if (0xfdd0 <= i && i <= 0xfdef) || (i & 0xfffe) == 0xfffe {
+        // systemd drops a line that contains a Unicode noncharacter literally
+        // ("not UTF-8 clean"), but accepts its UTF-8 bytes written as escapes
+        let mut buf = [0u8; 4];
+        c.encode_utf8(&mut buf).bytes().map(|b| format!("\\x{:0>2x}", b)).collect()
+      }
+      else if c.is_control() {
         if i < 128 {
-          format!("\\x{:0>2}", i)
+          format!("\\x{:0>2x}", i)
         }
         else if i < 0x10000 {
-          format!("\\u{:0>4}", i)
+          format!("\\u{:0>4x}", i)
         }
         else {
-          format!("\\U{:0>8}", i)
+          format!("\\U{:0>8x}", i)
         }
       }
       else {
